@@ -1,4 +1,6 @@
 pub mod c01;
+pub mod c02;
+pub mod c07;
 pub mod c20;
 
 use crate::engine::PropFn;
@@ -6,6 +8,8 @@ use crate::engine::PropFn;
 pub fn table() -> Vec<(&'static str, PropFn)> {
     vec![
         ("C01", c01::run as PropFn),
+        ("C02", c02::run as PropFn),
+        ("C07", c07::run as PropFn),
         ("C20", c20::run as PropFn),
     ]
 }
